@@ -201,7 +201,7 @@ func init() {
 			"ASCII, one statement per line, so that column arithmetic (C04) cannot influence the verdict",
 		},
 		Flavour:      "prod+overlay",
-		QuickBudgetS: 420, ThoroughBudgetS: 1500,
+		QuickBudgetS: 420, ThoroughBudgetS: 3600,
 		Spaces: func(tier string) []*core.Space {
 			var sp []*core.Space
 			for _, d := range scopeSpaces(tier) {
